@@ -336,6 +336,8 @@ class Explorer(object):
                 return c
             if e.id in ('len', 'iter', 'str', 'int', 'bool', 'list', 'tuple', 'isinstance', 'range', 'enumerate', 'min', 'max', 'any', 'all', 'type', 'set', 'Set', 'sorted', 'sum', 'Map', 'dict', 'Array'):
                 return ('builtin', e.id)
+            if e.id in getattr(self.port, 'modules', {}) or e.id in ('re', 'os', 'sys', 'math', 'JSON', 'Math', 'Object', 'Buffer', 'csv_utils', 'rbql_engine', 'rbql'):
+                return ('global', e.id)
             # a module-level table of constants (`WILDCARDS = new Map([['_', '.'], ...])`, a dict / list / tuple literal), bound once
             mod_ = getattr(self.port, 'modules', {}).get(self.modname)
             if mod_ is not None:
@@ -434,6 +436,8 @@ class Explorer(object):
         raise Undecided('expression kind {} is outside the abstract interpreter'.format(type(e).__name__), e)
 
     def attr(self, node, obj, name):
+        if isinstance(obj, tuple) and len(obj) == 2 and obj[0] == 'global':
+            return ('global', obj[1] + '.' + name)
         if isinstance(obj, Abs) and (obj.uid, name) in self.run.state:
             return self.run.state[(obj.uid, name)]
         if self.on_attr is not None:
